@@ -26,8 +26,10 @@ def configurations():
         ('x86-64', build.TARGETS['le'], []),
         ('x86-64 -DNDEBUG', build.TARGETS['le'], ['-DNDEBUG']),
         ('i386 gcc-like -Os', build.TARGETS['le32'], ['-Os'] + list(GCC_LIKE) + list(NOT_CLANG)),
+        ('armv6m', build.TARGETS['le32s'], []),
         ('powerpc64', build.TARGETS['be'], []),
         ('powerpc64 gcc-like', build.TARGETS['be'], ['-fgnuc-version=12.2.0']),
+        ('sparc', build.TARGETS['be32s'], []),
         ('mips gcc-like', build.TARGETS['be32'], ['-fgnuc-version=12.2.0', '-U__BIG_ENDIAN__']),
     ]
 
